@@ -252,7 +252,7 @@ def _real(size, res, viol):
         cond = 'run_experiment(name="e", run="python3 w.py", args=["x", 1], options={"k": True}, parallelizable=%s)\n' % (mode == "slot")
         root = driver.fresh_project({"COND": cond, "w.py": prog}, name="c10real")
         env = dict(os.environ)
-        env["PYTHONPATH"] = "/repo/src"
+        env["PYTHONPATH"] = driver.REPO_SRC
         art = {"kind": "real", "size": size}
         try:
             p = subprocess.run(["/venv/bin/python", "-m", "conductor", "run", "//:e"] + (["-j", "2"] if mode == "slot" else []),
